@@ -265,14 +265,20 @@ func judgeQueries(s *core.Sess, qs [][2]string) *outcome {
 		// DESIGN guard: any error makes the case inconclusive (error asymmetry between the filter and the
 		// select list position is counted, not judged: evaluation order / short-circuit may legitimately differ)
 		o.verdict = "inconclusive"
-		o.mode = "error:" + strings.Join(errs, ",")
-		if len(errs) < len(qs) {
-			o.mode = "error-asymmetry"
-			if res["Q"].Err != nil {
-				o.mode = "error-in-base-query"
+		first := ""
+		for _, k := range []string{"TRUE", "FALSE", "NULL", "PROJ"} {
+			if res[k].Err != nil {
+				first = core.StripVolatile(res[k].Err.Error())
+				break
 			}
-		} else {
-			o.mode = "all-error:" + res["TRUE"].ErrClass()
+		}
+		switch {
+		case res["Q"].Err != nil:
+			o.mode = "error-in-base-query"
+		case len(errs) == len(qs)-1:
+			o.mode = "all-positions-error:" + first
+		default:
+			o.mode = "error-asymmetry:" + first
 		}
 		return o
 	}
@@ -482,12 +488,11 @@ func evalPredicate(r *core.Run, s *core.Sess, setup []string, sh *shape, p *g6bl
 		r.Violation(o.panicR.Panic.Sig(), w)
 		return
 	case "inconclusive":
-		reason := o.mode
-		if strings.HasPrefix(reason, "error:") {
-			reason = "error"
-		}
-		r.Inconclusive(reason)
+		r.Inconclusive(o.mode)
 		r.Count("inconclusive."+sh.name, 1)
+		if os.Getenv("VERIF_DEBUG") != "" {
+			fmt.Fprintf(os.Stderr, "INCONCLUSIVE %s shape=%s p=%s\n   results=%v\n", o.mode, sh.name, psql, o.results)
+		}
 		return
 	}
 	r.Eval(2)
